@@ -454,3 +454,21 @@ for _m in sorted(_glob.glob(_os.path.join(_V, "seeded", "*", "meta.json"))):
     for _p, _v in _meta["detected_by"].items():
         if _p in _PROPS:
             VARIANTS.append(dict(id=f"seeded/{_meta['id']}", prop=_p, patch=_os.path.join(_os.path.dirname(_m), "patch.diff"), expect=_v["rules"], kind="mutant"))
+
+# ---------------------------------------------------------------- after the mutation sweep
+M("int-negated", "C02", L311, "            if start <= lasti_before <= end:\n                handler_depth = depth", "            if not (start <= lasti_before <= end):\n                handler_depth = depth", "INT")
+M("snap7-default-1", "C07", L311, "        else:\n            handler_depth = 0\n", "        else:\n            handler_depth = 1\n", "SNAP-7")
+M("snap7-minus", "C07", L311, "stack_top_offset = stack_start_offset + wordsize * handler_depth", "stack_top_offset = stack_start_offset - wordsize * handler_depth", "SNAP-7")
+M("snap6-stack-reset-deleted", "C07", L311, "            details.stack = []\n            if frame_owner", "            if frame_owner", "SNAP-6")
+M("cont1-frameiter-no-break", "C05", EX, "                    except Exception as ex:\n                        save_errors.append(ex)\n                        break", "                    except Exception as ex:\n                        save_errors.append(ex)", "CONT-1")
+M("opc7-39-store-deleted", "C08", LL, "            cleanup_offset = insn.argval\n            with_block_info[cleanup_offset] = Context(\n                obj=None,\n                is_async=(insn.opname == \"SETUP_ASYNC_WITH\"),\n                varname=store_to,\n                start_line=current_line,\n            )",
+  "            cleanup_offset = insn.argval", "LINE-1")
+M("line1-is-async-noteq", "C08", LL, 'is_async=(insn.opname == "SETUP_ASYNC_WITH"),', 'is_async=(insn.opname != "SETUP_ASYNC_WITH"),', "LINE-1")
+M("opc3b-nop-plus-2", "C08", LL, "                # as x:' covers multiple lines\n                skip_insns += 1", "                # as x:' covers multiple lines\n                skip_insns += 2", "OPC-3b")
+M("opc3b-nop-minus", "C01", LL, "                # This can show up on 3.11 if the expr in 'async with <expr>\n                # as x:' covers multiple lines\n                skip_insns += 1", "                # This can show up on 3.11 if the expr in 'async with <expr>\n                # as x:' covers multiple lines\n                skip_insns -= 1", "OPC-3b")
+M("opc2b-else-raise-deleted", "C08", LL, '            else:\n                raise ValueError(f"{insn.opname} in assignment target not supported")', '            else:\n                pass', "OPC-2b")
+M("opc2b-depth-raise-deleted", "C08", LL, '            raise ValueError("Assignment occurred at unsupported stack depth")', '            pass', "OPC-2b")
+M("opc2b-except-narrow", "C08", LL, "    except (ValueError, IndexError):\n        return None", "    except ValueError:\n        return None", "OPC-2b")
+M("reg5-hide-line-default", "C12", CU, "    target: Any = None,\n    *inner_names: str,\n    hide: bool = False,\n    hide_line: bool = False,", "    target: Any = None,\n    *inner_names: str,\n    hide: bool = False,\n    hide_line: bool = True,", "REG-5")
+M("reg4-register-returns-none", "C12", CD, "            registry[actual_code] = func\n            return func", "            registry[actual_code] = func", "REG-4")
+M("reg4-trailing-first", "C12", CD, "                func = cast(Callable[..., Any], nested_names[-1])\n                nested_names = nested_names[:-1]", "                func = cast(Callable[..., Any], nested_names[-1])\n                nested_names = nested_names[:-2]", "REG-4")
